@@ -2107,3 +2107,19 @@ def k17b_validation_on_demand(core, rep):
                        f'{f.qual} validates input text outside the read gate, the prompt loop and the check of a prompted answer: inputs nobody reads are validated too', _w(f, c))
     if n < 2:
         raise AnalysisError('calls of valid() not found (anchor vanished)')
+
+
+def k11e_parser_options(core, rep):
+    """every configuration parser in the package (input file, solution writer, solution reader of fill-pdfs) is built with
+    interpolation=None and nothing else: no defaults, no inline comments, no lenient duplicates - text is read back exactly as written"""
+    n = 0
+    for rel, c in core.all_nodes(ast.Call):
+        if call_name(c) == 'ConfigParser':
+            n += 1
+            extra = [k.arg for k in c.keywords if k.arg != 'interpolation']
+            rep.ob('K11e', f'parser-options/{rel}@{enclosing_function(c).name if enclosing_function(c) else "module"}',
+                   not extra and not c.args,
+                   f'{unparse(c)} sets {extra or "positional defaults"}: text written by one step is then read differently by the next (values cut at comment characters, duplicate keys merged, defaults supplied)',
+                   f'{rel}:{c.lineno}')
+    if n < 3:
+        raise AnalysisError('configuration parsers not found (anchor vanished)')
